@@ -437,3 +437,37 @@ def lax_with_strict(V):
     r2 = run(T, y)
     V.check(r2[0] == 'ok' and same(r2[1], y), 'lax:with-strict:not-a-fixed-point', lambda: det() + ' -> %r' % (r2[1:],))
     V.cover('accept')
+
+
+# ------------------------------------------------------------------ two lax constraints that both only shrink the value
+@ob('lax/two-lax', marks=['accept'], budget=(60, 200),
+    bounds='Rule[int](le=Lax(a), multiple_of=Lax(k)), a solver int -5..9, k in {2, 3}, x unbounded solver int; Rule[list](max_length=Lax(m), '
+           'unique_items=Lax(True)), m in 1..3, lists of <= 4 ints 0..2; Rule[Decimal](multiple_of=Lax(0.1 / 0.25 / 3)) on 7 literals: the '
+           'output satisfies the strict form of every constraint and is a fixed point (constraints that only shrink converge in '
+           'declaration order)')
+def lax_two(V):
+    kind = V.pick('kind', ['int', 'list', 'decimal'])
+    if kind == 'int':
+        a, k, x = V.int('a', -5, 9), V.pick('k', [2, 3]), V.int('x')
+        T = Rule.annotate(int, constraints={'le': Lax(a), 'multiple_of': Lax(k)})
+        strict_ok = lambda y: y <= a and y % k == 0
+    elif kind == 'list':
+        m = V.pick('m', [1, 2, 3])
+        x = [V.int('e%d' % i, 0, 2) for i in range(V.pick('n', [0, 1, 2, 3, 4]))]
+        T = Rule.annotate(list, constraints={'max_length': Lax(m), 'unique_items': Lax(True)})
+        strict_ok = lambda y: len(y) <= m and len(set(y)) == len(y)
+    else:
+        div = V.pick('divisor', [0.1, 0.25, 3, 0.3])
+        x = Decimal(V.pick('lit', ['1', '0.95', '1.2', '7', '0.05', '100.01', '-0.35']))
+        with V.notrace():
+            T = Rule.annotate(Decimal, constraints={'multiple_of': Lax(div)})
+        strict_ok = lambda y: y % Decimal(str(div)) == 0
+    r = run(T, x)
+    if r[0] != 'ok':
+        return
+    y = r[1]
+    det = lambda: '%s: %r -> %r' % (kind, x, y)
+    V.check(strict_ok(y), 'lax:two-lax:output-violates-strict-form', det)
+    r2 = run(T, y)
+    V.check(r2[0] == 'ok' and same(r2[1], y), 'lax:two-lax:not-a-fixed-point', lambda: det() + ' -> %r' % (r2[1:],))
+    V.cover('accept')
